@@ -51,7 +51,7 @@ Check(e, ex, isBase) ==
               (~isBase /\ o.exc = "" /\ bobs.exc = ""
                  /\ (relOnly \/ (ex.ok /\ Expected(base, e.lenient).ok))
                  /\ Len(o.out) = N(e.call) /\ Len(bobs.out) = N(base))
-              => RelHolds(e.rel, base, e.call, Singles(bobs.out), Singles(o.out)))
+              => RelHolds(e.rel, base, e.call, Singles(bobs.out), Singles(o.out), e.lenient))
 
 Step ==
     /\ l <= Len(TraceLog)
